@@ -34,6 +34,7 @@ def take_control():
     hpt.micros = clock.micros
     del timer_worker.queue[:]
     del process_worker.queue[:]
+    remember_decoders()
 
 
 def release_control():
@@ -66,8 +67,42 @@ def drain_process(on_item=None, limit=None):
     return done
 
 
+_pristine = {}
+_CONFIG_ATTRS = ('_enabled', '_tolerance', '_frequency_tolerance')
+
+
+def _copy(v):
+    return list(v) if isinstance(v, list) else dict(v) if isinstance(v, dict) else v
+
+
+def remember_decoders():
+    """record every decoder instance's attributes as they are now (first call only: the state at import)"""
+    for dec in list(protocols.__dict__['_decoders']):
+        if id(dec) not in _pristine:
+            _pristine[id(dec)] = (dec, {k: _copy(v) for k, v in vars(dec).items()})
+
+
+def restore_decoders():
+    """put every decoder instance's hidden decode state (half-received two-part frames: Denon._sequence_code,
+    Sharp._partial_code, F12._saved_code, swapped _parameters ...) back to the state at import; the configuration
+    attributes (enabled, tolerances) are left as they are.  Without this two scenarios run one after the other in the
+    same process do not start from the same state (false alarm of C13 thorough, seed 0: Denon + Sharp)."""
+    for dec, snap in _pristine.values():
+        cur = vars(dec)
+        keep = {k: cur[k] for k in _CONFIG_ATTRS if k in cur}
+        cur.clear()
+        cur.update({k: _copy(v) for k, v in snap.items()})
+        cur.update(keep)
+        try:
+            dec._last_code = None
+        except Exception:
+            pass
+
+
 def reset_dispatcher(decoders=None):
-    """fresh dispatcher state on the real FakeModule instance"""
+    """fresh dispatcher state on the real FakeModule instance (and fresh decode state of every decoder instance)"""
+    remember_decoders()
+    restore_decoders()
     d = protocols.__dict__
     d['_last_code'] = None
     d['_last_decoder'] = None
